@@ -589,6 +589,10 @@ impl nervusdb_query::WriteableGraph for WriteTxn<'_> {
             .map_err(|e| nervusdb_query::Error::Other(e.to_string()))
     }
 
+    fn external_id_in_use(&self, external_id: ExternalId) -> bool {
+        self.inner.external_id_in_use(external_id)
+    }
+
     fn add_node_label(
         &mut self,
         node: InternalNodeId,
